@@ -1,6 +1,6 @@
 import SamVerif.Props.C09
 /-! Axiom audit of every C09 property theorem (parsed by vlib/common.py). -/
-open SamVerif.Doc SamVerif.CommentQueue
+open SamVerif.Doc SamVerif.CommentQueue SamVerif.Imports
 #print axioms layout_is_linearisation
 #print axioms layout_preserves_text
 #print axioms render_only_whitespace
@@ -20,3 +20,6 @@ open SamVerif.Doc SamVerif.CommentQueue
 #print axioms consume_takes_all_pending
 #print axioms createRef_get
 #print axioms prepend_conserves
+#print axioms imports_group_exact
+#print axioms imports_conserve_comments
+#print axioms imports_comments_move_with_line
